@@ -321,6 +321,8 @@ def cutTilesAux {α} (z : α) (M : Img α) (R C tr tc : Int) (ch : Int) :
       match getTileArray z M R C ro co tr tc with
       | .error e => .error e
       | .ok t =>
+        -- a frame must have the shape (Rows, Columns) of the image: the padded tile has to be `tr × tc`
+        if getTileShape R C ro co tr tc ≠ .ok (tr, tc) then .error .value else
         match cutTilesAux z M R C tr tc ch offs keep (base + 1) with
         | .error e => .error e
         | .ok (rows, frs) => .ok (⟨ro, co, base, ch⟩ :: rows, t :: frs)
